@@ -21,8 +21,8 @@ def run(ctx, res):
     # unordered_eq finds candidate entries through the key index: C15.match assumes a well-formed index, which is what the
     # index-maintenance rules of C06 establish (a stale index makes objects unequal to themselves)
     from . import C06
-    res.rules_run.append("C15.index = C06.pair + C06.shift + C06.sorted (every writer keeps the key index exact; unordered_eq looks entries up through it)")
-    C06.pair(ctx, res)
+    res.rules_run.append("C15.index = C06.model restricted to index exactness + C06.shift + C06.sorted (every operation leaves the key index exact; unordered_eq looks entries up through it)")
+    C06.model_rule(ctx, res, only_index=True, rule="C15.index")
     C06.shift(ctx, res)
     C06.sorted_rule(ctx, res)
     res.notes.append("C15.match replaces the structural rule C15.object of earlier revisions (two containment passes, duplicate guard): the procedure is now interpreted on every small configuration, which is both stronger and independent of how the matching is written")
